@@ -61,3 +61,10 @@ Theorem C15_truncated_doc_fails : forall pf skip o r tm d p q,
   xml_decode pf skip o r p tm = Err (err_of tm).
 Proof. exact truncated_doc_fails. Qed.
 Print Assumptions C15_truncated_doc_fails.
+
+(* ---- the panic-site inventory regenerated from the current Go source matches the table that names,
+        per function, the model function representing its sites (GenProofs/SitesG.v) ---- *)
+From Mxj Require Import Gen.Sites_gen GenProofs.SitesG.
+Theorem C15_sites_covered : sites_match panic_sites expected_sites = true.
+Proof. exact sites_covered. Qed.
+Print Assumptions C15_sites_covered.
